@@ -190,6 +190,17 @@ fn main() {
             Ok(g) => println!("{}", dump(&g)),
             Err(e) => println!("PARSE-ERROR\t{}\t{:?}", e.position, e.specifics),
         },
+        "tokens" => {
+            // the file as a token sequence (comments and layout are not tokens)
+            match proc_macro2::TokenStream::from_str(&text) {
+                Ok(ts) => println!("TOKENS\n{}", ts),
+                Err(e) => println!("LEX-ERROR\t{}", e),
+            }
+        }
+        "debug" => match Grammar::from_str(&text) {
+            Ok(g) => println!("OK\t{:?}", g),
+            Err(e) => println!("PARSE-ERROR\t{}\t{:?}", e.position, e.specifics),
+        },
         "gen" => {
             let mut settings = CodegenSettings::default();
             for a in &args[3..] {
